@@ -95,6 +95,28 @@ class ValMethod:
         self.val, self.name = val, name
 
 
+class OptV:
+    """Value that is None exactly when `isnone` holds, else `val` (lazy fork: decided only when inspected)."""
+    __slots__ = ("isnone", "val")
+
+    def __init__(self, isnone, val):
+        self.isnone, self.val = isnone, val
+
+    def __repr__(self):
+        return f"OptV<{self.isnone}?None:{self.val!r}>"
+
+
+def isnone(v):
+    """None-ness of a value as python bool or z3 Bool."""
+    if isinstance(v, OptV):
+        return v.isnone
+    return v is None
+
+
+def unopt(v):
+    return v.val if isinstance(v, OptV) else v
+
+
 class Opaque:
     """Value the executor knows nothing about (repr() output, log strings ...)."""
     __slots__ = ("what",)
@@ -122,6 +144,8 @@ def tag_of(v):
         return "str"
     if v is None:
         return "none"
+    if isinstance(v, OptV):
+        return "opt"
     if isinstance(v, tuple):
         return "tuple"
     if isinstance(v, Ref):
@@ -172,3 +196,9 @@ def concrete(v):
     if v.tag == "str" and z3.is_string_value(t):
         return True, t.as_string()
     return False, None
+
+
+def zn(v):
+    """None-ness as a z3 Bool."""
+    n = isnone(v)
+    return z3.BoolVal(n) if isinstance(n, bool) else n
